@@ -10,13 +10,7 @@ From SCC Require Sem.AxCheck.
 Import ListNotations.
 Open Scope list_scope.
 
-(* the additional conditions of the typing theorem: parameter types of definitions and field types of
-   xtors are declared (wt_fs does not look at them; the AxCut checker demands declared parameter
-   types, and a lifted statement can turn a clause parameter into a parameter of a definition) *)
-Definition decls_ok (p : fsprog) : bool :=
-  forallb (fun d => forallb (fun b => ty_ok (fspdata p) (fspcodata p) (cbty b)) (fsdctx d)) (fspdefs p)
-  && forallb (fun t => forallb (fun x => forallb (fun b => ty_ok (fspdata p) (fspcodata p) (cbty b)) (cxargs x)) (ctxtors t))
-             (fspdata p ++ fspcodata p).
+(* decls_ok: Sem/FsFrag2.v *)
 
 Lemma nodup_by_NoDup_cident : forall l : list cident, FsCheck.nodup_by cident_eqb l = true -> NoDup l.
 Proof.
